@@ -27,6 +27,7 @@ def run(ctx):
     ctx.do(H.rule_h1, scope=ctx.scope(ENTRIES))
     ctx.do(SH.rule_sh2, only={"kleinian_to_poincare", "poincare_to_kleinian", "poincare_to_halfspace", "halfspace_to_poincare", "hyperboloid_coords", "apply_bilinear", "normsq", "normalize"})
     ctx.do(SI.rule_pt1, [SI.HYP], scope=ctx.scope(ENTRIES))
+    ctx.do(SH.rule_sh5, only={"Point.coords", "Point.distance"})
     ctx.do(u1, ENTRIES, min_functions=15)
     ctx.r.assume("round-trip equality, agreement of the closed-form metrics, "
                  "symmetry and the triangle inequality are numerical and not "
